@@ -1,7 +1,14 @@
+mod alloc;
 mod common;
 mod fe;
+mod pc;
+mod pf;
+mod ps;
 mod tr;
 mod tr2;
+
+#[global_allocator]
+static GLOBAL: alloc::Counting = alloc::Counting;
 
 fn main() {
     let a: Vec<String> = std::env::args().collect();
@@ -21,6 +28,13 @@ fn main() {
         "c15" => tr2::cmd_c15(tier, out),
         "c16" => tr2::cmd_c16(tier, out),
         "c17" => tr2::cmd_c17(tier, out),
+        "c03" => pc::cmd_c03(tier, out),
+        "c04" => pc::cmd_parser(tier, out, "c04"),
+        "c09" => pc::cmd_parser(tier, out, "c09"),
+        "c13" => pc::cmd_parser(tier, out, "c13"),
+        "c12" => pc::cmd_c12(tier, out),
+        "c06" => pc::cmd_c06(tier, out),
+        "c06-worker" => pc::cmd_c06_worker(&a[2], a[3].parse().unwrap()),
         other => {
             eprintln!("unknown command {}", other);
             std::process::exit(2);
